@@ -22,6 +22,13 @@
 //!                is not demanded by the statement (AAAA records are returned for A queries): counted
 //!                as an observation only. Failures (NXDOMAIN etc.) are not constrained by the
 //!                statement's first sentence and are only counted.
+//!  foreign     - "records for other names are ignored ...": a matching response that carries the
+//!                wanted records completes the query with exactly the wanted addresses (in order, up
+//!                to the result capacity) whatever records owned by an unrelated name stand before,
+//!                between or after them: bounded-exhaustive sweep of small answer sections in
+//!                dns/sweep.rs (C19/foreign-record/not-ignored/<position>); with no foreign record
+//!                at all, and for the good responses used as controls (large, after an idle gap,
+//!                after ARP / back-pressure is lifted), C19/good-response/not-completed/<kind>.
 //!  termination - while a query is pending `poll_at` is Some; polling exactly at `poll_at` every
 //!                query reaches Ok/Failed within servers x (10 s + 10 s max back-off) + 1 s of
 //!                simulated time; every poll returns (device-call budget + wall-clock watchdog) and
@@ -34,6 +41,7 @@
 //!                received as many datagrams as the first one when the query leaves it by time.
 
 pub mod msg;
+pub mod sweep;
 pub mod watch;
 
 use crate::core::*;
@@ -1661,6 +1669,7 @@ pub fn run(tier: Tier) -> i32 {
     let mut rep = Report::new("C19", tier);
     rep.assumptions.push("IPv4 transport for responses (mDNS queries also leave over IPv6 and are observed); one dns::Socket; queries started at t=0. Links: Medium::Ip where every frame gets out; Medium::Ip with device back-pressure (tx_budget 0, lifted/re-imposed by the explorer; while smoltcp asks to be polled 'now' one poll per simulated second); Medium::Ethernet with servers on-link or behind a gateway whose ARP is never answered / answered by the explorer not before 3 s / at any time. Timing clauses only on the unimpaired link; matching and termination clauses everywhere".into());
     rep.assumptions.push("time advances only to Interface::poll_at (statement: 'polled according to poll_at'); bound = servers x (10 s + 10 s max back-off) + 1 s from dns.rs constants".into());
+    rep.assumptions.push("'records for other names are ignored' is judged as an obligation: a matching response carrying the wanted records must complete the query with exactly those addresses (coverage.answer_section_sweep); good responses that are not accepted (coverage.positive_controls) are verdicts too, not machinery errors".into());
     rep.assumptions.push("matching oracle uses its own tolerant DNS parser (dns/msg.rs); lenient readings are listed in coverage.lenient_readings and counted in coverage.observations".into());
     rep.assumptions.push(format!(
         "build limits in effect: DNS_MAX_SERVER_COUNT={} DNS_MAX_RESULT_COUNT={} DNS_MAX_NAME_SIZE={} (run under both the default and the small variant)",
@@ -1755,14 +1764,20 @@ pub fn run(tier: Tier) -> i32 {
     let controls = positive_controls(&cfgs);
     let failed: Vec<String> = controls.iter().filter(|c| c["completed"] != json!(true)).map(|c| c["control"].as_str().unwrap_or("").to_string()).collect();
     rep.cov("positive_controls", json!(controls));
-    if !failed.is_empty() {
-        eprintln!("[C19] WARNING: positive controls not completed: {:?}", failed);
-        if rep.found.is_empty() {
-            // not a violation of the statement (which only restricts what MAY complete a query), but a
-            // run in which good answers are not accepted proves nothing
-            rep.machinery_errors.push(format!("positive controls failed (good responses not accepted): {:?}", failed));
+    let _ = failed;
+    // A good response (matching on every criterion, carrying the wanted records) that does not
+    // complete the query is smoltcp's behaviour, hence a verdict, not a machinery problem.
+    for c in &controls {
+        if c["completed"] != json!(true) {
+            let kind = c["kind"].as_str().unwrap_or("");
+            rep.violation(
+                control_sig(kind),
+                format!("good response not accepted: {} -> {}", c["control"].as_str().unwrap_or(""), c["result"].as_str().unwrap_or("")),
+                json!({"type": "control", "config": c["config"], "kind": kind}),
+            );
         }
     }
+    run_sweep(&mut rep, tier);
     // evidence samples: timeline without answers, the CNAME-rewrite scenario, a good answer
     if let Some((c, _)) = cfgs.first() {
         rep.samples.push(json!({"what": "no answers: retransmission/fail-over timeline", "run": scripted(c, &[&|e| *e == Ev::RunOut])}));
@@ -1800,10 +1815,33 @@ fn drive(cfg: &DnsCfg, pick: &[&dyn Fn(&DnsH, &Ev) -> bool]) -> Option<Status> {
 
 fn positive_controls(cfgs: &[(DnsCfg, usize)]) -> Vec<Value> {
     let mut out = vec![];
-    let mut rec = |name: String, st: Option<Status>| {
-        out.push(json!({"control": name, "completed": matches!(st, Some(Status::Ok(_))), "result": format!("{:?}", st)}));
-    };
     for (c, _) in cfgs {
+        out.extend(controls_of(c));
+    }
+    out
+}
+
+/// Good responses that must complete the query. `kind` names the signature on failure.
+fn controls_of(c: &DnsCfg) -> Vec<Value> {
+    let mut out = vec![];
+    let cfg_dbg = format!("{:?}", c);
+    let mut rec = |name: String, st: Option<Status>| {
+        let kind = if name.contains(">2KiB") {
+            "large-wanted-record-after-foreign-records"
+        } else if name.contains(">1KiB") {
+            "large-cname-target-beyond-0x400"
+        } else if name.contains("idle") {
+            "after-idle-gap"
+        } else if name.contains("unblock") {
+            "after-back-pressure-is-lifted"
+        } else if name.contains("ARP") {
+            "after-arp-reply"
+        } else {
+            "small"
+        };
+        out.push(json!({"control": name, "kind": kind, "config": cfg_dbg, "completed": matches!(st, Some(Status::Ok(_))), "result": format!("{:?}", st)}));
+    };
+    {
         let base = base_spec(&c.0);
         let good = Ev::Resp(0, base);
         match c.0.net {
@@ -1816,7 +1854,7 @@ fn positive_controls(cfgs: &[(DnsCfg, usize)]) -> Vec<Value> {
             }
             Net::Ip => {
                 if c.0.alpha == Alpha::Mini {
-                    continue;
+                    return vec![];
                 }
                 rec(format!("{}: good small answer", c.0.label), drive(c, &[&move |_, e| *e == good]));
                 let big = Ev::Resp(0, RSpec { ans: Ans::BigCname, ..base });
@@ -1846,6 +1884,62 @@ fn positive_controls(cfgs: &[(DnsCfg, usize)]) -> Vec<Value> {
     out
 }
 
+fn control_sig(kind: &str) -> String {
+    if kind == "large-wanted-record-after-foreign-records" {
+        "C19/foreign-record/not-ignored/large-response".into()
+    } else {
+        format!("C19/good-response/not-completed/{}", kind)
+    }
+}
+
+/// The answer-section sweep (dns/sweep.rs): violations + evidence.
+fn run_sweep(rep: &mut Report, tier: Tier) {
+    use rayon::prelude::*;
+    let cases = sweep::enumerate(tier == Tier::Thorough);
+    let outs: Vec<sweep::Outcome> = cases.par_iter().map(sweep::run_case).collect();
+    let mut per_shape: BTreeMap<String, (u64, u64)> = BTreeMap::new();
+    let mut per_kind: BTreeMap<String, u64> = BTreeMap::new();
+    let mut sample_done = 0;
+    for (c, o) in cases.iter().zip(outs.iter()) {
+        let e = per_shape.entry(o.shape.to_string()).or_insert((0, 0));
+        e.0 += 1;
+        *per_kind.entry(format!("{} type{}", c.qname, c.qtype)).or_insert(0) += 1;
+        if o.ok {
+            e.1 += 1;
+            if sample_done < 2 && c.foreign.len() == 2 && c.skel == sweep::Skel::C2A1 && c.foreign[0].0 != c.foreign[1].0 {
+                sample_done += 1;
+                rep.samples.insert(0, json!({"what": "answer-section sweep case (foreign records ignored, wanted addresses returned)",
+                    "case": sweep::case_json(c), "response": o.response, "result": o.got}));
+            }
+        } else {
+            let sig = if o.shape == "none" {
+                format!("C19/good-response/not-completed/small-{:?}", c.skel).to_lowercase().replace("c19/", "C19/")
+            } else {
+                format!("C19/foreign-record/not-ignored/{}", o.shape)
+            };
+            let detail = format!(
+                "query {} type {}: a matching response (configured server / mDNS port, own port, own txid, question repeated) with answer section {} must complete the query with {:?} (records owned by the unrelated name v.* ignored); result {}. dns={}",
+                c.qname, c.qtype, o.response, o.expected, o.got, o.hex
+            );
+            rep.violation(sig, detail, sweep::case_json(c));
+        }
+        for v in &o.other {
+            rep.violation(v.sig.clone(), v.detail.clone(), sweep::case_json(c));
+        }
+    }
+    rep.add_count("evaluations", cases.len() as u64);
+    rep.add_count("transitions", cases.len() as u64);
+    rep.cov(
+        "answer_section_sweep",
+        json!({
+            "rule": "query kind {A,AAAA} x {unicast, mDNS}; skeleton {[Q a],[Q a,Q a],[Q->T,T a],[Q->T,T a,T a],[Q->T,T->U,U a]}; 0..=2 records owned by an unrelated name, each {address same family, address other family, CNAME to T}, at every combination of gaps (both orders); compressed (thorough: also uncompressed); each case = one response delivered to the just-transmitted query on a fresh real interface; expected = Ok(addresses of the skeleton in order, cut at DNS_MAX_RESULT_COUNT)",
+            "cases": cases.len(),
+            "per_query_kind": per_kind,
+            "per_position_of_first_foreign_record(cases, as_expected)": per_shape.iter().map(|(k, v)| (k.clone(), json!([v.0, v.1]))).collect::<BTreeMap<_, _>>(),
+        }),
+    );
+}
+
 /// Replay choices with a full narrative; returns (lines, violations).
 fn narrate(cfg: &DnsCfg, choices: &[u16]) -> (Vec<String>, Vec<Viol>) {
     let mut lines = vec![];
@@ -1873,6 +1967,26 @@ fn narrate(cfg: &DnsCfg, choices: &[u16]) -> (Vec<String>, Vec<Viol>) {
 
 pub fn replay(art: &Value) -> i32 {
     watch::start_monitor("replay");
+    if art["replay"]["type"] == json!("answer-section") {
+        let Some(c) = sweep::case_from_json(&art["replay"]) else {
+            eprintln!("MACHINERY ERROR: malformed answer-section case");
+            return 2;
+        };
+        let o = sweep::run_case(&c);
+        println!("case: {:?}", c);
+        println!("response: {}\n  dns={}", o.response, o.hex);
+        println!("expected addresses (rdata): {:?}", o.expected);
+        println!("result: {}", o.got);
+        for v in &o.other {
+            println!("violation: {} :: {}", v.sig, v.detail);
+        }
+        if o.ok && o.other.is_empty() {
+            println!("no violation on replay");
+            return 0;
+        }
+        println!("violation: wanted records not returned / foreign record not ignored ({})", o.shape);
+        return 1;
+    }
     let want = art["replay"]["config"].as_str().unwrap_or("");
     let mut all = configs(Tier::Quick);
     all.extend(configs(Tier::Thorough));
@@ -1880,6 +1994,20 @@ pub fn replay(art: &Value) -> i32 {
         eprintln!("MACHINERY ERROR: configuration {:?} does not exist in this build (limits in effect: servers {}, results {}) - replay under the build variant that produced the artefact", want, DNS_MAX_SERVER_COUNT, DNS_MAX_RESULT_COUNT);
         return 2;
     };
+    if art["replay"]["type"] == json!("control") {
+        let kind = art["replay"]["kind"].as_str().unwrap_or("");
+        let mut rc = 2;
+        for c in controls_of(&cfg) {
+            if c["kind"].as_str() == Some(kind) {
+                println!("{}: {}", c["control"].as_str().unwrap_or(""), c["result"].as_str().unwrap_or(""));
+                rc = if c["completed"] == json!(true) { 0 } else { 1 };
+            }
+        }
+        if rc == 0 {
+            println!("no violation on replay");
+        }
+        return rc;
+    }
     let choices: Vec<u16> = match art["replay"]["choices"].as_array() {
         Some(a) => a.iter().map(|x| x.as_u64().unwrap_or(0) as u16).collect(),
         None => {
